@@ -82,15 +82,15 @@ MC_EXTRA = {
 
 # random workload profiles of the harness: (profile, histories quick, histories thorough)
 PROFILES = {
-    "C01": [("general", 60, 900), ("big", 20, 300), ("quiet", 20, 300)],
+    "C01": [("general", 60, 900), ("big", 20, 300), ("quiet", 20, 300), ("huge", 5, 60)],
     "C02": [("cas", 80, 1200), ("general", 30, 400)],
     "C05": [("expiry", 80, 1200), ("delflush", 30, 400)],
-    "C06": [("cond", 80, 1200), ("big", 20, 300)],
+    "C06": [("cond", 80, 1200), ("big", 20, 300), ("huge", 4, 40)],
     "C07": [("counter", 90, 1400), ("general", 20, 300)],
     "C08": [("delflush", 80, 1200), ("expiry", 30, 400)],
     "C14": [("evict_tight", 70, 1000)],
     "C15": [("evict_roomy", 40, 500), ("evict_tight", 20, 300)],
-    "C19": [("quiet", 80, 1200), ("general", 30, 400)],
+    "C19": [("quiet", 60, 900), ("quietpair", 60, 900), ("general", 20, 300)],
 }
 
 # rules that must have been exercised by the traces of a run (vacuity guard)
@@ -103,7 +103,7 @@ REQUIRED = {
     "C08": ["delete.ok", "delete.absent", "delete.cas.mismatch", "flush.now", "flush.delayed"],
     "C14": ["store.absent.ok+evicted", "store.live.ok"],
     "C15": ["store.live.ok", "concat.ok", "delta.ok", "delete.ok", "flush.now"],
-    "C19": ["get.miss", "store.live.ok", "delete.ok", "add.present"],
+    "C19": ["get.miss", "store.live.ok", "delete.ok", "add.present", "pair.final"],
 }
 
 ASSUMPTIONS = [
@@ -216,7 +216,7 @@ def run(pid, tier, seed, replay=None, extra=None):
         rp = json.load(open(replay))
         pf = os.path.join(d, "replay.prog.json")
         open(pf, "w").write(json.dumps(rp["program"]) + "\n")
-        results.append(seqlib.run_programs(pf, "replay-" + pid))
+        results.append(seqlib.run_programs(pf, "replay-" + pid, pairs=bool(rp.get("pairs"))))
     else:
         # 1. exhaustive: model of the code refines the contract
         mc_results = run_mc(pid, tier, d)
@@ -252,7 +252,8 @@ def run(pid, tier, seed, replay=None, extra=None):
         rr = seqlib.gen_and_validate(jobs, "rand-" + pid, phys=True)
         results.extend(rr)
         # conformance to the model of the code on a sample of the random traces
-        sample = rr if tier == "thorough" else rr[:3]
+        cand = [r for r in rr if r["job"][0] not in ("quietpair", "huge")]     # (recorded without the physical snapshot)
+        sample = cand if tier == "thorough" else cand[:3]
         drift_results.extend(parallel(lambda r: tlc_trace(r["trace_file"], spec="MemcStoreTrace",
                                                            name="drift-" + os.path.basename(r["trace_file"])), sample, workers=8))
 
@@ -264,7 +265,7 @@ def run(pid, tier, seed, replay=None, extra=None):
             cov[c[0]] = cov.get(c[0], 0) + c[1]
     if not replay:
         missing = [x for x in REQUIRED.get(pid, []) if not any(k == x or k.endswith("/" + x) or k.startswith(x + "+") for k in cov)]
-        if missing:
+        if missing and not bad:
             raise ToolError("vacuous run for %s: contract rules never exercised: %s" % (pid, missing))
     ndrift = sum(len(r["violations"]) for r in drift_results)
     for r in drift_results:
@@ -284,6 +285,7 @@ def run(pid, tier, seed, replay=None, extra=None):
         seen.add(key)
         ctx = seqlib.violation_context(res, v)
         path = write_replay(pid, {"driver": "seq", "property": pid, "rule": v["rule"], "tags": sorted(v["tags"]),
+                                  "pairs": ctx["event"].get("e") == "final",
                                   "program": ctx["program"], "event": ctx["event"],
                                   "line": v["line"], "trace_tail": ctx["history_events"][-12:]})
         replays.append(path)
